@@ -332,6 +332,17 @@ where
         let mut rec = IterTarget::<C>::new(bx);
         let _ = fb.draw_as_image(&mut rec, o);
         let want_in = egmon::target::restrict(&want, &bx);
+        // (and on a native target that skips the colours of invisible points in bulk with nth)
+        let mut skp = egmon::target::NativeTarget::<C>::new(bx);
+        skp.log_mut().skip_invisible_with_nth = true;
+        let _ = fb.draw_as_image(&mut skp, o);
+        if !skp.log().map.same(&want_in) {
+            ctx.violation(
+                format!("{}|as_image-on-bounded-target-differs|skipping-with-nth", klass(bpp, F::ALT)),
+                || format!("{} {}x{} N={} ops: {}", name, w, h, F::N, trace.join("; ")),
+                || format!("drawing as_image() at {:?} on a native target with box {:?} that skips invisible colours with nth differs from the visible part of the written content at {:?}", o, egmon::target::rt(&bx), skp.log().map.first_diff(&want_in)),
+            );
+        }
         if !rec.log().map.same(&want_in) {
             ctx.violation(
                 format!("{}|as_image-on-bounded-target-differs", klass(bpp, F::ALT)),
